@@ -68,6 +68,13 @@ func (b *RawBackend) storageByPath(ctx context.Context, path string) (StorageAcc
 	// Fast-path root or deleted namespaces; we do not need a lookup into the
 	// seal manager.
 	if ns == nil || ns.ID == namespace.RootNamespaceID {
+		// The root namespace's own seal configuration lives at the bare path.
+		// A path that merely resolves to the root namespace (its UUID spelled
+		// out as a prefix) is an ordinary key and stays behind the barrier.
+		if specialPath && path != rest {
+			specialPath = false
+		}
+
 		if specialPath {
 			return &directStorageAccess{physical: b.core.physical}, ns != nil, nil
 		} else {
